@@ -4,7 +4,8 @@
  * (stubs below); a stub that is reached for an id that should have been rejected is a violation, and CBMC's pointer
  * checks flag any NULL/invalid dereference of track_fsr/track_anno/track_utc.
  * The core is constructed directly: NSIG signal slots (hook JLS_VERIF_SIGNAL_COUNT), each slot symbolically
- * defined/undefined, FSR/VSR; undefined and VSR slots have NULL FSR state exactly as calloc + jls_wr_signal_def leave them.
+ * defined/undefined, FSR/VSR; undefined and VSR slots have NULL FSR state exactly as calloc + jls_wr_signal_def leave them;
+ * an undefined slot may also hold the residue of a definition that was refused for its parameters (id/type set, nothing written).
  */
 #include "common.h"
 #include "jls/core.h"
@@ -160,7 +161,7 @@ static int32_t utc_cbk(void * user_data, const struct jls_utc_summary_entry_s * 
 
 void harness(void) {
     for (unsigned i = 0; i < NSIG; ++i) {
-        SYM_U8(st);           /* bit0: defined, bit1: FSR */
+        SYM_U8(st);           /* bit0: defined, bit1: FSR, bit2 (undefined slots): residue of a refused definition */
         defined_[i] = (st & 1) != 0;
         is_fsr_[i] = (st & 2) != 0;
         struct jls_core_signal_s * s = &core.signal_info[i];
@@ -189,6 +190,13 @@ void harness(void) {
                 s->track_utc = &utc_obj[i];
                 utc_obj[i].parent = s; utc_obj[i].track_type = JLS_TRACK_TYPE_UTC; utc_obj[i].decimate_factor = 10;
             }
+        } else if (st & 4) {
+            /* residue of a definition that jls_wr_signal_def refused for its parameters: the caller's struct was copied into the slot
+             * before validation (id and type set), nothing was written (chunk_def.offset == 0), no per-signal state was opened */
+            s->signal_def.signal_id = (uint16_t) i;
+            s->signal_def.signal_type = is_fsr_[i] ? JLS_SIGNAL_TYPE_FSR : JLS_SIGNAL_TYPE_VSR;
+            s->signal_def.data_type = JLS_DATATYPE_F32;
+            s->signal_def.sample_rate = 0;
         }
     }
     core.buf = jls_buf_alloc();
